@@ -166,6 +166,9 @@ func callName(c *ssa.CallCommon) string {
 	}
 	switch f := c.Value.(type) {
 	case *ssa.Function:
+		if a, ok := funcAlias.Load(f); ok {
+			return a.(string)
+		}
 		if f.Object() != nil {
 			if fo, ok := f.Object().(*types.Func); ok {
 				return shortName(fo.FullName())
@@ -268,7 +271,7 @@ func fieldPath(v ssa.Value) (root ssa.Value, names []string, ok bool) {
 			st := derefT(x.X.Type()).Underlying().(*types.Struct)
 			f := st.Field(x.Field)
 			if !f.Embedded() || len(names) == 0 {
-				names = append([]string{f.Name()}, names...)
+				names = append([]string{aliasedFieldName(f)}, names...)
 			}
 			cur = x.X
 			continue
@@ -276,7 +279,7 @@ func fieldPath(v ssa.Value) (root ssa.Value, names []string, ok bool) {
 			st := x.X.Type().Underlying().(*types.Struct)
 			f := st.Field(x.Field)
 			if !f.Embedded() || len(names) == 0 {
-				names = append([]string{f.Name()}, names...)
+				names = append([]string{aliasedFieldName(f)}, names...)
 			}
 			cur = x.X
 			continue
